@@ -203,7 +203,7 @@ Qed.
 (* the invariant                                                        *)
 (* ------------------------------------------------------------------ *)
 Section Inv.
-Variables (bad : cell -> bool) (h : heap) (n0 : Z).
+Variables (h : heap) (n0 : Z).
 
 Record WF (s : st) : Prop := mkWF {
   wf_nk : NoDup (keys (memo s));
@@ -290,13 +290,12 @@ Proof.
       * exact Hr.
 Qed.
 
-Lemma step_spec : forall self, Spec_loc self -> Spec_loc (step bad h self).
+Lemma step_spec : forall self, Spec_loc self -> Spec_loc (step h self).
 Proof.
   intros self Hself l s s3 W H. unfold step in H.
   destruct (lookup (memo s) l) as [l0|] eqn:Em.
   { inversion H; subst. split; [apply Post_refl; auto | eapply lookup_Some_keys; eauto]. }
   destruct (lookup h l) as [c|] eqn:Eh; [|discriminate].
-  destruct (bad c); [discriminate|].
   destruct (clone_list self (refs_cell c) (mkSt (out s) ((l, next s) :: memo s) (next s + 1)))
     as [s2| |] eqn:Ec; try discriminate.
   inversion H; subst s3; clear H.
@@ -336,7 +335,7 @@ Proof.
   - cbn [memo]. rewrite M, keys_app. apply in_or_app; right. rewrite keys_cons. left; reflexivity.
 Qed.
 
-Lemma clone_loc_spec : forall fuel, Spec_loc (clone_loc bad h fuel).
+Lemma clone_loc_spec : forall fuel, Spec_loc (clone_loc h fuel).
 Proof.
   induction fuel as [|n IH].
   - intros l s s2 _ H. discriminate.
@@ -356,16 +355,16 @@ End Inv.
 (* ------------------------------------------------------------------ *)
 (* MAIN THEOREM                                                         *)
 (* ------------------------------------------------------------------ *)
-Theorem clone_roots_iso : forall bad h fuel roots n0 s,
-  clone_roots bad h fuel roots n0 = Ok s ->
+Theorem clone_roots_iso : forall h fuel roots n0 s,
+  clone_roots h fuel roots n0 = Ok s ->
   iso h (out s) (memo s) /\
   (forall r, In r roots -> In r (keys (memo s))) /\
   (forall l', In l' (keys (out s)) <-> In l' (vals (memo s))) /\
   (forall l', In l' (vals (memo s)) -> n0 <= l' < next s) /\
   NoDup (keys (out s)).
 Proof.
-  intros bad h fuel roots n0 s H. unfold clone_roots in H.
-  destruct (clone_list_spec h n0 _ (clone_loc_spec bad h n0 fuel) roots (init n0) s
+  intros h fuel roots n0 s H. unfold clone_roots in H.
+  destruct (clone_list_spec h n0 _ (clone_loc_spec h n0 fuel) roots (init n0) s
               (WF_init h n0) H) as [P R].
   destruct P as [W _ _ G _].
   assert (Hblack : forall v, In v (vals (memo s)) -> In v (keys (out s))).
@@ -401,104 +400,61 @@ Proof.
     + rewrite (Hle a s) by congruence. rewrite E. reflexivity.
 Qed.
 
-Lemma step_mono : forall bad h self self', res_le self self' ->
-  res_le (step bad h self) (step bad h self').
+Lemma step_mono : forall h self self', res_le self self' ->
+  res_le (step h self) (step h self').
 Proof.
-  intros bad h self self' Hle l s H. unfold step in *.
+  intros h self self' Hle l s H. unfold step in *.
   destruct (lookup (memo s) l); auto.
   destruct (lookup h l) as [c|]; auto.
-  destruct (bad c); auto.
   rewrite (clone_list_mono _ _ Hle); [reflexivity|].
   intro E; rewrite E in H; congruence.
 Qed.
 
-Lemma clone_loc_mono : forall bad h n m, (n <= m)%nat ->
-  res_le (clone_loc bad h n) (clone_loc bad h m).
+Lemma clone_loc_mono : forall h n m, (n <= m)%nat ->
+  res_le (clone_loc h n) (clone_loc h m).
 Proof.
-  intros bad h. induction n as [|n IH]; intros m Hm l s H.
+  intros h. induction n as [|n IH]; intros m Hm l s H.
   - simpl in H; congruence.
   - destruct m as [|m]; [lia|]. simpl. apply step_mono; [|exact H].
     apply IH. lia.
 Qed.
 
-Theorem clone_loc_fuel_mono : forall bad h n l s s',
-  clone_loc bad h n l s = Ok s' -> forall m, (n <= m)%nat -> clone_loc bad h m l s = Ok s'.
+Theorem clone_loc_fuel_mono : forall h n l s s',
+  clone_loc h n l s = Ok s' -> forall m, (n <= m)%nat -> clone_loc h m l s = Ok s'.
 Proof.
-  intros bad h n l s s' H m Hm. rewrite (clone_loc_mono bad h n m Hm l s); [exact H|].
+  intros h n l s s' H m Hm. rewrite (clone_loc_mono h n m Hm l s); [exact H|].
   rewrite H; discriminate.
 Qed.
 
-Theorem clone_loc_fuel_mono_panic : forall bad h n l s,
-  clone_loc bad h n l s = Panic -> forall m, (n <= m)%nat -> clone_loc bad h m l s = Panic.
+Theorem clone_loc_fuel_mono_panic : forall h n l s,
+  clone_loc h n l s = Panic -> forall m, (n <= m)%nat -> clone_loc h m l s = Panic.
 Proof.
-  intros bad h n l s H m Hm. rewrite (clone_loc_mono bad h n m Hm l s); [exact H|].
+  intros h n l s H m Hm. rewrite (clone_loc_mono h n m Hm l s); [exact H|].
   rewrite H; discriminate.
 Qed.
 
-Theorem clone_roots_fuel_mono_gen : forall bad h n roots n0,
-  clone_roots bad h n roots n0 <> Fuel ->
-  forall m, (n <= m)%nat -> clone_roots bad h m roots n0 = clone_roots bad h n roots n0.
+Theorem clone_roots_fuel_mono_gen : forall h n roots n0,
+  clone_roots h n roots n0 <> Fuel ->
+  forall m, (n <= m)%nat -> clone_roots h m roots n0 = clone_roots h n roots n0.
 Proof.
-  intros bad h n roots n0 H m Hm. unfold clone_roots in *.
+  intros h n roots n0 H m Hm. unfold clone_roots in *.
   apply clone_list_mono; [|exact H]. apply clone_loc_mono; exact Hm.
 Qed.
 
-Theorem clone_roots_fuel_mono : forall bad h n roots n0 s,
-  clone_roots bad h n roots n0 = Ok s ->
-  forall m, (n <= m)%nat -> clone_roots bad h m roots n0 = Ok s.
+Theorem clone_roots_fuel_mono : forall h n roots n0 s,
+  clone_roots h n roots n0 = Ok s ->
+  forall m, (n <= m)%nat -> clone_roots h m roots n0 = Ok s.
 Proof.
-  intros bad h n roots n0 s H m Hm. rewrite (clone_roots_fuel_mono_gen bad h n roots n0); auto.
+  intros h n roots n0 s H m Hm. rewrite (clone_roots_fuel_mono_gen h n roots n0); auto.
   rewrite H; discriminate.
 Qed.
 
-Theorem clone_roots_fuel_mono_panic : forall bad h n roots n0,
-  clone_roots bad h n roots n0 = Panic ->
-  forall m, (n <= m)%nat -> clone_roots bad h m roots n0 = Panic.
+Theorem clone_roots_fuel_mono_panic : forall h n roots n0,
+  clone_roots h n roots n0 = Panic ->
+  forall m, (n <= m)%nat -> clone_roots h m roots n0 = Panic.
 Proof.
-  intros bad h n roots n0 H m Hm. rewrite (clone_roots_fuel_mono_gen bad h n roots n0); auto.
+  intros h n roots n0 H m Hm. rewrite (clone_roots_fuel_mono_gen h n roots n0); auto.
   rewrite H; discriminate.
-Qed.
-
-(* ------------------------------------------------------------------ *)
-(* (b) a successful otto clone is what the panic-free cloner produces   *)
-(* ------------------------------------------------------------------ *)
-Definition ok_le (self self' : loc -> st -> res) : Prop :=
-  forall l s s', self l s = Ok s' -> self' l s = Ok s'.
-
-Lemma clone_list_ok_le : forall self self', ok_le self self' ->
-  forall ls s s', clone_list self ls s = Ok s' -> clone_list self' ls s = Ok s'.
-Proof.
-  intros self self' Hle. induction ls as [|a ls IH]; intros s s' H; simpl in *.
-  - exact H.
-  - destruct (self a s) as [s1| |] eqn:E; try discriminate.
-    rewrite (Hle _ _ _ E). apply IH; exact H.
-Qed.
-
-Lemma step_ok_le : forall bad h self self', ok_le self self' ->
-  ok_le (step bad h self) (step no_bad h self').
-Proof.
-  intros bad h self self' Hle l s s' H. unfold step in *.
-  destruct (lookup (memo s) l); auto.
-  destruct (lookup h l) as [c|]; auto.
-  destruct (bad c); [discriminate|]. unfold no_bad.
-  destruct (clone_list self (refs_cell c) _) as [s2| |] eqn:E; try discriminate.
-  rewrite (clone_list_ok_le _ _ Hle _ _ _ E). exact H.
-Qed.
-
-Lemma clone_loc_no_bad_agree : forall bad h n,
-  ok_le (clone_loc bad h n) (clone_loc no_bad h n).
-Proof.
-  intros bad h. induction n as [|n IH].
-  - intros l s s' H; discriminate.
-  - simpl. apply step_ok_le. exact IH.
-Qed.
-
-Theorem clone_roots_no_bad_agree : forall h fuel roots n0 s,
-  clone_roots otto_bad h fuel roots n0 = Ok s ->
-  clone_roots no_bad h fuel roots n0 = Ok s.
-Proof.
-  intros h fuel roots n0 s H. unfold clone_roots in *.
-  eapply clone_list_ok_le; [apply clone_loc_no_bad_agree | exact H].
 Qed.
 
 (* ------------------------------------------------------------------ *)
@@ -589,22 +545,21 @@ Proof.
     exists (m2 ++ m1). rewrite M2, M1. apply app_assoc.
 Qed.
 
-Lemma step_memo_grows : forall bad h self, memo_grows self -> memo_grows (step bad h self).
+Lemma step_memo_grows : forall h self, memo_grows self -> memo_grows (step h self).
 Proof.
-  intros bad h self Hs l s s' H. unfold step in H.
+  intros h self Hs l s s' H. unfold step in H.
   destruct (lookup (memo s) l).
   { inversion H; subst. exists []; reflexivity. }
   destruct (lookup h l) as [c|]; [|discriminate].
-  destruct (bad c); [discriminate|].
   destruct (clone_list self (refs_cell c) _) as [s2| |] eqn:E; try discriminate.
   inversion H; subst; clear H. cbn [memo].
   destruct (clone_list_memo_grows self Hs _ _ _ E) as [m M]. cbn [memo] in M.
   exists (m ++ [(l, next s)]). rewrite M, <- app_assoc. reflexivity.
 Qed.
 
-Lemma clone_loc_memo_grows : forall bad h n, memo_grows (clone_loc bad h n).
+Lemma clone_loc_memo_grows : forall h n, memo_grows (clone_loc h n).
 Proof.
-  intros bad h. induction n as [|n IH].
+  intros h. induction n as [|n IH].
   - intros l s s' H; discriminate.
   - simpl. apply step_memo_grows. exact IH.
 Qed.
@@ -624,27 +579,26 @@ Proof.
     + discriminate.
 Qed.
 
-Lemma clone_loc_no_fuel : forall bad h fuel l s,
-  (cnt h (memo s) < fuel)%nat -> clone_loc bad h fuel l s <> Fuel.
+Lemma clone_loc_no_fuel : forall h fuel l s,
+  (cnt h (memo s) < fuel)%nat -> clone_loc h fuel l s <> Fuel.
 Proof.
-  intros bad h. induction fuel as [|n IH]; intros l s Hc.
+  intros h. induction fuel as [|n IH]; intros l s Hc.
   - lia.
   - simpl. unfold step.
     destruct (lookup (memo s) l) eqn:Em; [discriminate|].
     destruct (lookup h l) as [c|] eqn:Eh; [|discriminate].
-    destruct (bad c); [discriminate|].
-    destruct (clone_list (clone_loc bad h n) (refs_cell c) _) as [s2| |] eqn:E; try discriminate.
+      destruct (clone_list (clone_loc h n) (refs_cell c) _) as [s2| |] eqn:E; try discriminate.
     exfalso. revert E.
-    apply (clone_list_no_fuel h (clone_loc bad h n) n IH (clone_loc_memo_grows bad h n)).
+    apply (clone_list_no_fuel h (clone_loc h n) n IH (clone_loc_memo_grows h n)).
     cbn [memo]. eapply Nat.lt_le_trans; [apply (cnt_lt h (memo s) l (next s) c Eh Em)|].
     apply Nat.lt_succ_r. exact Hc.
 Qed.
 
-Theorem clone_roots_enough_fuel : forall bad h fuel roots n0,
-  (length h < fuel)%nat -> clone_roots bad h fuel roots n0 <> Fuel.
+Theorem clone_roots_enough_fuel : forall h fuel roots n0,
+  (length h < fuel)%nat -> clone_roots h fuel roots n0 <> Fuel.
 Proof.
-  intros bad h fuel roots n0 Hf. unfold clone_roots.
-  apply (clone_list_no_fuel h (clone_loc bad h fuel) fuel).
+  intros h fuel roots n0 Hf. unfold clone_roots.
+  apply (clone_list_no_fuel h (clone_loc h fuel) fuel).
   - intros l s. apply clone_loc_no_fuel.
   - apply clone_loc_memo_grows.
   - pose proof (cnt_bound h (memo (init n0))). lia.
@@ -652,11 +606,11 @@ Qed.
 
 (* every clone that is long enough terminates with a definite outcome, and the
    outcome no longer depends on the fuel *)
-Corollary clone_roots_fuel_irrelevant : forall bad h roots n0 f1 f2,
+Corollary clone_roots_fuel_irrelevant : forall h roots n0 f1 f2,
   (length h < f1)%nat -> (length h < f2)%nat ->
-  clone_roots bad h f1 roots n0 = clone_roots bad h f2 roots n0.
+  clone_roots h f1 roots n0 = clone_roots h f2 roots n0.
 Proof.
-  intros bad h roots n0 f1 f2 H1 H2.
+  intros h roots n0 f1 f2 H1 H2.
   destruct (Nat.le_ge_cases f1 f2) as [L|L].
   - symmetry. apply clone_roots_fuel_mono_gen; [apply clone_roots_enough_fuel; exact H1 | exact L].
   - apply clone_roots_fuel_mono_gen; [apply clone_roots_enough_fuel; exact H2 | exact L].
@@ -664,5 +618,4 @@ Qed.
 
 Print Assumptions clone_roots_iso.
 Print Assumptions clone_roots_fuel_mono.
-Print Assumptions clone_roots_no_bad_agree.
 Print Assumptions clone_roots_enough_fuel.
